@@ -42,6 +42,10 @@ enum Case {
     Prefix { coin: &'static str, variant: u8, start: Option<u64> },
     /// as Flip, on a chain of merged-mined blocks (header, AuxPoW section, transactions) of namecoin / dogecoin
     AuxFlip { coin: &'static str, height: u64, region: &'static str, which: u8 },
+    /// a pruning node's directory: a consistent chain of 7 blocks whose heights below `pruned` have lost their block data (blk
+    /// file deleted; records keep their validity, without HAVE_DATA / HAVE_UNDO and without file positions; `witness_flag`:
+    /// the pruned records also carry BLOCK_OPT_WITNESS), read with --verify --start pruned+delta: must pass
+    Pruned { coin: &'static str, pruned: u64, delta: u64, witness_flag: bool },
 }
 
 /// Offsets (relative to the block start) of every one-byte CompactSize inside the legacy transactions of a serialised block.
@@ -242,6 +246,17 @@ pub fn run() -> Report {
         cases.push(Case::WrongGenesis { coin: c.name });
     }
     cases.push(Case::ManyFiles);
+    for cn in ["bitcoin", "litecoin", "dogecoin"] {
+        for pruned in 1..=4u64 {
+            for delta in 0..=1u64 {
+                for witness_flag in [false, true] {
+                    if cn == "bitcoin" || (pruned + delta) % 2 == 0 {
+                        cases.push(Case::Pruned { coin: cn, pruned, delta, witness_flag });
+                    }
+                }
+            }
+        }
+    }
     for cn in ["bitcoin", "litecoin", "namecoin", "dogecoin"] {
         for variant in 0..6u8 {
             for start in [None, Some(2u64)] {
@@ -601,6 +616,40 @@ pub fn run() -> Report {
                         acc.disagree("consistent-chain-rejected:many-files", format!("120 consistent blocks in 120 blk files, RLIMIT_NOFILE=40: exit {:?}: {}", r.code, r.stderr.lines().take(3).collect::<Vec<_>>().join(" | ")), json!({"kind": "e1-described", "case": "ManyFiles"}));
                     } else {
                         acc.count("must-pass-passed", 1);
+                    }
+                }
+                Case::Pruned { coin: cname, pruned, delta, witness_flag } => {
+                    let cn = coin(cname);
+                    let cb = chain_with(cn, 2, 7);
+                    let mut world = World::new(cn);
+                    for (h, b) in cb.blocks.iter().enumerate() {
+                        let h = h as u64;
+                        // pruned heights lived in blk00000.dat, which is gone; the others are in blk00001.dat
+                        let mut r = world.add_block(if h < *pruned { 0 } else { 1 }, h, b);
+                        if h < *pruned {
+                            r.status = refmodel::world::VALID_SCRIPTS | if *witness_flag { refmodel::world::OPT_WITNESS } else { 0 };
+                            world.put_rec(&r);
+                        }
+                    }
+                    world.files.remove(&0);
+                    let start = pruned + delta;
+                    let spec = RunSpec::new(cname, "csvdump").verify(true).range(Some(start), None);
+                    let r = match wk.world_run(&world, &spec) {
+                        Ok(r) => r,
+                        Err(m) => return acc.machinery(m),
+                    };
+                    acc.count("must-pass", 1);
+                    acc.count("must-pass:pruned-lower-part", 1);
+                    if r.ok() {
+                        acc.count("must-pass-passed", 1);
+                    }
+                    let (s, e) = (r.declared_start().unwrap_or(start), r.declared_end().unwrap_or(6));
+                    let mut bad = check_csvdump(&r, cn, &in_range(&cb.mblocks(), s, e), s, e);
+                    if r.code != Some(0) {
+                        bad.insert(0, ("consistent-chain-rejected:pruned-lower-part".into(), format!("exit {:?}: {}", r.code, r.stderr.lines().take(4).collect::<Vec<_>>().join(" | "))));
+                    }
+                    if let Some((sig, detail)) = bad.into_iter().next() {
+                        acc.disagree(&sig, format!("{:?}: {}", c, detail), replay_case(&world, &spec, json!({"must": "pass"}), &r, &wk.dir));
                     }
                 }
                 Case::Multi { kinds, start } => {
